@@ -931,19 +931,42 @@ def rule_registry(ctx):
            "GetECDSAAllChecks": "_ACTIVE_ECDSA_SIG_CHECKS"}
   for g, tup in sorted(pairs.items()):
     f = repo.func("paranoid", g)
-    loops = [n for n in ast.walk(f.node) if isinstance(n, ast.For)]
-    ok = len(loops) == 1 and ast.unparse(loops[0].iter) == tup
+    w = sym.Walker(repo, f)
+    w.run()
+    reg = P("ref", "paranoid." + tup)
+    loops = [i_ for i_ in w.loop_info.values() if not isinstance(i_["iter"], Seq) and i_["iter"] is not None and as_poly(i_["iter"]) == reg]
+    ok = len(loops) == 1
     body_ok = False
     if ok:
-      lp = loops[0]
-      tv = ast.unparse(lp.target)
-      txt = [norm(s) for s in lp.body]
-      inst = [t for t in txt if re.fullmatch(r"(\w+) = %s\(\)" % re.escape(tv), t)]
-      if inst:
-        var = inst[0].split(" =")[0]
-        body_ok = any(re.fullmatch(r"_check_factory\[\w+\]\[%s\.check_name\] = %s" % (var, var), t) for t in txt)
-      exits = any(isinstance(x, (ast.Break, ast.Continue, ast.Return)) for x in ast.walk(lp))
-      body_ok = body_ok and not exits
+      il = loops[0]
+      rets = {repr(as_poly(v_)) for k_, v_, s_ in w.terminals if k_ == "return" and not isinstance(v_, (Seq, Const, tuple))}
+      body_ok = bool(rets) and bool(il["body_paths"])
+      for kind, val, s_, since, vis in il["body_paths"]:
+        evs = [w.events[x] for x in s_.trace if x >= since]
+        elem = sym.mk("idx", reg, as_poly(vis["k"]))
+        insts = [e for e in evs if e.kind == "call" and e.data["name"].startswith("local:") and not e.data["args"]
+                 and not isinstance(s_.env.get(e.data["name"][6:]), (Seq, Const, tuple)) and s_.env.get(e.data["name"][6:]) is not None
+                 and as_poly(s_.env[e.data["name"][6:]]) == elem]
+        sts = [e for e in evs if e.kind == "store"]
+        if kind != "fall" or len(insts) != 1 or len(sts) != 1:
+          body_ok = False
+          continue
+        inst = as_poly(insts[0].data["value"])
+        st = sts[0]
+        base = as_poly(st.data["base"])
+        # the dict returned is the one written: the same term, or a local alias of it that the loop updates
+        alias = {repr(base)}
+        for nm, pv in vis["pre_env"].items():
+          if pv is not None and not isinstance(pv, (Seq, Const, tuple)) and as_poly(pv) == base and vis["after_env"].get(nm) is not None:
+            alias.add(repr(as_poly(vis["after_env"][nm])))
+          hv = vis["head"].env.get(nm)
+          if hv is not None and not isinstance(hv, (Seq, Const, tuple)) and as_poly(hv) == base and pv is not None and not isinstance(pv, (Seq, Const, tuple)) \
+             and vis["after_env"].get(nm) is not None:
+            alias.add(repr(as_poly(vis["after_env"][nm])))
+            base_pre = as_poly(pv)
+            alias.add(repr(base_pre))
+        if as_poly(st.data["value"]) != inst or as_poly(st.data["index"]) != sym.mk("attr", inst, "check_name") or not (rets <= alias):
+          body_ok = False
     ctx.record(R, f.where, "getter", ok and body_ok, "instantiates every class of %s under its check_name" % tup if ok and body_ok else
                "getter does not instantiate and register every class of %s" % tup)
   for g, parts in (("GetRSAAllChecks", ("GetRSASingleChecks", "GetRSAAggregateChecks")), ("GetECAllChecks", ("GetECSingleChecks", "GetECAggregateChecks"))):
